@@ -47,6 +47,11 @@ Theorem C08_nm_isort_lawful : forall (N : Num), StrictWeak (T N) (ltb N) ->
 Proof. exact isort_ok. Qed.
 Print Assumptions C08_nm_isort_lawful.
 
+(* what the correspondence accepts as "the observed order" ([guided]) is at least sorted *)
+Theorem C08_nm_guided_accepts_only_sorted : forall (N : Num) (l : list (vertex N)), sortedb N l = true -> Sorted (fle N) l.
+Proof. exact sortedb_Sorted. Qed.
+Print Assumptions C08_nm_guided_accepts_only_sorted.
+
 (* ================================================================== Powell *)
 
 (* direction set keeps its N vectors; fval after each sweep never increases and never exceeds f(x0), given that the line-search
